@@ -277,7 +277,7 @@ impl<O: Clone + 'static> DynObj for W<O, KCloneOnly> {
     }
 }
 
-single!(KChildren, Children, CHILDREN, call_children, m, [
+single!(KChildren, ReplaceMutChild, CHILDREN_SINGLE, call_children_single, m, [
     O::Child: IntoDyn<KBasic>, O::RefChild: ReadOnly, O::MutChild: Basic,
     O::GChild: IntoDyn<KGrpA>, O::GRefChild: ReadOnly, O::GMutChild: Basic,
 ]);
